@@ -20,13 +20,13 @@ ASSUMPTIONS = ["invocations are compared by (function, argument hash), not by po
                "the model is ~100 lines of pure Python in checks/calltree.py"]
 COMPONENTS = {"real": ["runner (single + batch paths), call stack, propagate_dependencies, resource functions, storage backends", "fork lifetimes"],
               "stub": ["generated program", "uuid4, clock"]}
-REACH = ["rounds_with_read_faults", "concurrent_cases", "sched:provenance_records_checked", "rounds", "records_compared", "rounds_with_memoized_subcalls", "batch_root_runs", "restarts", "evictions",
+REACH = ["trees_with_non_memoized_failures", "rounds_with_read_faults", "concurrent_cases", "sched:provenance_records_checked", "rounds", "records_compared", "rounds_with_memoized_subcalls", "batch_root_runs", "restarts", "evictions",
          "trees_with_failing_calls", "trees_with_batches", "trees_with_resources"]
 
 
 def gen_case(seed):
     rng = core.stream(seed, "gen")
-    prog = calltree.gen_tree(rng)
+    prog = calltree.gen_tree(rng, feats={"p_nomemo": 0.3})     # some failing calls raise an exception that is not to be memoized
     rounds = []
     for _ in range(rng.randrange(1, 5)):
         rounds.append({"forget_p": rng.choice([0.0, 0.3, 0.6, 1.0]), "pick": rng.randrange(1 << 30),
@@ -200,7 +200,16 @@ def run_rounds(root, case, group, calls, li):
             read_faults_fired = len(simfs.S.read_fired)
             simfs.disarm()
         runs = [[t[0], t[1]] for t in side.take()]
-        emit({"round": rnd_index, "out": out, "runs": runs, "forgotten": forgotten, "read_faults_fired": read_faults_fired,
+        # an unrelated, ordinary top-level call afterwards: whatever the run left behind must not affect it
+        try:
+            pv = mod.vprobe(rnd_index)
+            pm = mod.vprobe.memento(rnd_index)
+            probe = ["ok", pv, None if pm is None else [(pm.invocation_metadata.fn_reference_with_args.context_args or {}),
+                                                         len(pm.invocation_metadata.invocations)]]
+        except Exception as e:  # noqa
+            probe = ["exc", type(e).__name__, str(e)[:160]]
+        side.take()
+        emit({"round": rnd_index, "out": out, "runs": runs, "forgotten": forgotten, "read_faults_fired": read_faults_fired, "probe": probe,
               "records": collect_records(mod, prog, calls), "expected": expected_records(mod, prog, calls, root + "/res")})
     ev, _ = core.lifetime(body)
     return ev
@@ -247,12 +256,21 @@ def execute(case):
             results += run_rounds(root, case, group, calls, gi)
         present = set()
 
-        def visit(key):
-            if key in present:
+        # calls that end in an exception that is not to be memoized (their own, or one passing through them): never stored,
+        # executed again whenever they are reached
+        nomemo = set(k for k, rec in calls.items() if rec["outcome"][0] == "exc" and rec["outcome"][1] == "VNoMemo")
+        if nomemo:
+            bump("trees_with_non_memoized_failures")
+
+        def visit(key, seen=None):
+            seen = set() if seen is None else seen
+            if key in present or key in seen:
                 return          # served from the store: nothing beneath it runs
-            present.add(key)
+            seen.add(key)
+            if key not in nomemo:
+                present.add(key)
             for j, xv, eff in calls[key]["invocations"]:
-                visit(calltree.Model.key(j, xv, eff))
+                visit(calltree.Model.key(j, xv, eff), seen)
         faulted = False      # a reported read error was injected in this or an earlier round
         for res in results:
             ri = res["round"]
@@ -272,6 +290,9 @@ def execute(case):
                 if len(calls) >= 2:
                     nontriv = True
             feats = {"how": rnd["how"] if rnd else "single", "round": "baseline" if ri == 0 else "rerun"}
+            if res.get("probe") is not None and calltree.jsonable(res["probe"]) != ["ok", ["probe", ri], [{}, 0]]:
+                viol.append(core.violation("later-unrelated-call-affected", feats, {"probe": res["probe"], "round": ri}))
+                break
             want = calltree.jsonable(exp_out)
             got = calltree.jsonable(res["out"])
             if got[:2] != want[:2] and not (got[0] == "exc" and want[0] == "exc" and got[1] == want[1]):
@@ -287,6 +308,11 @@ def execute(case):
                 bump("records_compared")
                 r, e = res["records"].get(key), res["expected"][key]
                 rec = calls[key]
+                if key in nomemo:
+                    if r is not None:
+                        viol.append(core.violation("record-of-non-memoized-call", feats, {"call": key, "round": ri}))
+                        break
+                    continue
                 if key not in present:
                     continue    # forgotten beneath a call that stayed memoized: legitimately absent
                 if r is None:
